@@ -2047,6 +2047,9 @@ REF_FCN REF_STATUS ref_interp_locate_between(REF_INTERP ref_interp,
                 &(ref_interp->bary[4 * new_node])),
             "best in list");
       }
+      /* the donor found by the sequential search is local */
+      if (REF_EMPTY != ref_interp->cell[new_node])
+        ref_interp->part[new_node] = ref_mpi_rank(ref_mpi);
     }
     RSS(ref_list_free(ref_list), "free list");
   }
